@@ -10,6 +10,7 @@ FRAGS = [
  b"Title: t\nAuthor:", b"---\nk: v\n---", b"key: v\n   cont", b"[%key]", b"{{f.*}}", b"{{" + b"n" * 1200 + b"}}", b"<div>\n*a*\n</div>", b"<!-- c -->", b"-->", b"&#x41;&#65;&nbsp;",
  b"1. a\n   2. b\n\t* c", b"> > > q", b"term\n: def\n: def2", b"```c\nx\n````", b"~~~\nx", b"# h [lbl]", b"h\n===", b"h\n---", b"###### h ######", b"####### h", b"* * *", b"- - -x",
  b"[a]: b\n[a]: c\n[a][] [a]", b"[^n]: note\n\n[^n][^n]", b"[#c]: cite\n\n[p][#c] [#c;]", b"[?g]: gl\n\n[?g] [?(inline) def]", b"[>ab]: Abbr\n\nab ab [>(cd) Cd] cd", b"x[^inline *note*] y[#inline cite]",
+ b"![a](" + b"x" * 1500 + b")", b"[a](" + b"y" * 1100 + b" \"" + b"t" * 1200 + b"\")", b"![i](p.png \"" + b"T" * 2000 + b"\" width=" + b"9" * 300 + b"px)", b"[r]: " + b"u" * 1500 + b" \"t\"\n\n![z][r] [z][r]",
  b"a  \nb\\\nc", b"*a **b* c**", b"_a*b_c*", b"***", b"* ", b"\t", b"    ", b"\n\n\n", b"",
 ]
 CTX = [b"", b"> ", b"* ", b"    ", b"# ", b"| ", b": ", b"[^n]: ", b"1. ", b"<div> "]
@@ -25,3 +26,21 @@ OPML = [
  b'<opml><body>' + b'<outline text="d">' * 40 + b'</outline>' * 40 + b'</body></opml>', b'<opml><body><outline text="&gt;&gt;Preamble&lt;&lt;" _note="p"/><outline text="&gt;&gt;Metadata&lt;&lt;"/></body></opml>',
  b'<opml><body><outline text="a&b" _note="c<d"/></body></opml>', b"<opml><body><outline text='single' _note='q'/></body></opml>",
 ]
+
+
+def scale_docs():
+    """size boundaries: every definition kind / container in numbers that make the library's growing tables (stacks, search tries, label hashes) grow several times"""
+    out = []
+    for n in (40, 140, 300, 1100):
+        r = range(n)
+        out.append(("abbr%d" % n, "".join("[>abbrev%03d]: expansion %d\n" % (i, i) for i in r) + "\n" + " ".join("abbrev%03d" % i for i in r) + " end\n"))
+        out.append(("gloss%d" % n, "".join("[?term%03d]: definition %d\n" % (i, i) for i in r) + "\n" + " ".join("[?term%03d]" % i for i in r) + " term%03d\n" % (n // 2)))
+        out.append(("note%d" % n, " ".join("w[^f%d]" % i for i in r) + "\n\n" + "".join("[^f%d]: note %d\n" % (i, i) for i in r)))
+        out.append(("cite%d" % n, " ".join("[p. %d][#c%d]" % (i, i) for i in r) + "\n\n" + "".join("[#c%d]: reference %d\n" % (i, i) for i in r)))
+        out.append(("link%d" % n, " ".join("[t%d][l%d] ![i][l%d]" % (i, i, i) for i in r) + "\n\n" + "".join("[l%d]: http://x.y/%d \"t\" width=%dpx\n" % (i, i, i) for i in r)))
+        out.append(("head%d" % n, "{{TOC}}\n\n" + "".join("%s h%d\n\ntext [h%d][]\n\n" % ("#" * (1 + i % 6), i, (i * 7) % n) for i in r)))
+        out.append(("meta%d" % n, "".join("key%d: value [%%key%d]\n" % (i, (i * 3) % n) for i in r) + "\nbody [%%key1] [%%key%d]\n" % (n - 1)))
+    out.append(("longabbr", "[>" + "a" * 300 + "]: x\n[>" + "b" * 255 + "]: y\n[>" + "c" * 256 + "]: z\n\n" + "a" * 300 + " " + "b" * 255 + " " + "c" * 256 + "\n"))
+    out.append(("inlineabbr", " ".join("[>(ab%d) Abbr %d]" % (i, i) for i in range(300)) + " ab7 ab299\n"))
+    out.append(("table", "|" + "c|" * 300 + "\n|" + "-|" * 300 + "\n" + ("|" + "x|" * 300 + "\n") * 30))
+    return [(k, v.encode()) for k, v in out]
